@@ -52,6 +52,10 @@ def run(oc, tier, seed, model_available, escalate):
             tree["data/blob.bin"] = (ru.MD5_TWINS[0] + suf, ru.BASE_NS)
             foreign_twin = ru.MD5_TWINS[1] + suf
             oc.count("directed: unknown scraped file sharing its md5 with a recorded file")
+        if i % 5 == 3 and not any(len(c_) == 0 for c_, _m in tree.values()):
+            # directed: a zero-length recorded file walked FIRST (so that its row is not the last one)
+            tree["!0_placeholder.lock"] = (b"", ru.BASE_NS + 3 * 10**9)
+            oc.count("directed: zero-length recorded file as first row")
         root = os.path.join(d, "orig")
         ru.write_tree(root, tree)
         db = os.path.join(d, "db.csv")
@@ -69,7 +73,11 @@ def run(oc, tier, seed, model_available, escalate):
             if complete or rng.random() < 0.6:
                 for _ in range(1 if rng.random() < 0.85 else 2):
                     k += 1
-                    scraped["/".join(rng.choice([[], ["x"], ["x", "y y"], ["lost+found"]]) + ["f%04d.chk" % k])] = c
+                    if rng.random() < 0.25 and p not in scraped:
+                        scraped[p] = c          # (a file that is still at its exact recorded relative path in the scraped folder)
+                        oc.count("scraped file still at its recorded relative path")
+                    else:
+                        scraped["/".join(rng.choice([[], ["x"], ["x", "y y"], ["lost+found"]]) + ["f%04d.chk" % k])] = c
             if rng.random() < 0.3 and c:
                 cc = bytearray(c)
                 cc[rng.randrange(len(cc))] ^= 0x10
